@@ -656,6 +656,37 @@ class NPProxy(object):
             out[i] = out[i] + wv
         return out
 
+    def interp(self, x, xp, fp, left=None, right=None, period=None):
+        if not has_sym(x, xp, fp) or period is not None:
+            return real_np.interp(x, xp, fp, left=left, right=right, period=period)
+        _used('np.interp on object arrays (piecewise linear, constant beyond the ends, by comparison forks)')
+        xs = np.asarray(x, dtype=object)
+        xpl = [lift(v) for v in np.asarray(xp, dtype=object).flat]
+        fpl = [lift(v) for v in np.asarray(fp, dtype=object).flat]
+        if len(xpl) != len(fpl):
+            raise ValueError("fp and xp are not of the same length.")
+        if len(xpl) == 0:
+            raise ValueError("array of sample points is empty")
+
+        def one(v):
+            lv = lift(v)
+            if bool(lv < xpl[0]):
+                return fpl[0] if left is None else left
+            if bool(lv > xpl[-1]):
+                return fpl[-1] if right is None else right
+            for k in range(len(xpl) - 1):
+                if bool(lv <= xpl[k + 1]):
+                    if bool(xpl[k + 1] == xpl[k]):
+                        return fpl[k]
+                    return fpl[k] + (fpl[k + 1] - fpl[k]) * ((lv - xpl[k]) / (xpl[k + 1] - xpl[k]))
+            return fpl[-1]
+        if xs.ndim == 0:
+            return one(xs[()])
+        out = np.empty(xs.shape, dtype=object)
+        for idx in np.ndindex(xs.shape):
+            out[idx] = one(xs[idx])
+        return out.view(SymArray)
+
     def isclose(self, a, b, rtol=1e-05, atol=1e-08, equal_nan=False):
         if not has_sym(a, b):
             return real_np.isclose(a, b, rtol=rtol, atol=atol, equal_nan=equal_nan)
